@@ -263,3 +263,71 @@ Proof.
   subst a b. rewrite exp_ln in P1 by lra. rewrite exp_ln in P2 by lra.
   apply round_heR_in. lra.
 Qed.
+
+(* ---- finite range with float values: linear AND log scaling ---- *)
+(* the other inverse: to (from t) = t on the internal interval (ln (exp t) = t) *)
+Lemma real_scaling_inv2 sc lo hi : real_scaling sc lo hi ->
+  forall t, to_intR sc (from_intR sc t) = t.
+Proof.
+  intros [l h|l h H|l h H1 H2] t; simpl.
+  - reflexivity.
+  - apply ln_exp.
+  - replace (1 - (1 - exp (- t))) with (exp (- t)) by ring. rewrite ln_exp. ring.
+Qed.
+
+Lemma rf_grid_in r i : real_scaling (rf_sc r) (rf_lo r) (rf_hi r) -> rf_lo r <= rf_hi r ->
+  (0 <= i < rf_size r)%Z ->
+  rf_lo_i r <= IZR i * rf_step r + rf_lo_i r <= rf_hi_i r /\ 0 <= rf_step r.
+Proof.
+  intros Hs Hlh Hi. destruct (real_scaling_good _ _ _ Hs) as [(Hinv & Hmono & Hdom) Hm].
+  destruct (Hmono (rf_hi r) ltac:(lra)) as [Hlu _]. fold (rf_lo_i r) (rf_hi_i r) in Hlu.
+  unfold rf_step. destruct (Z.ltb 1 (rf_size r)) eqn:En.
+  - apply Z.ltb_lt in En.
+    assert (0 < IZR (rf_size r - 1)) as Hn by (apply IZR_lt; lia).
+    set (step := (rf_hi_i r - rf_lo_i r) / IZR (rf_size r - 1)).
+    assert (0 <= step) as Hst. { unfold step. apply Rmult_le_pos; [lra|]. left. apply Rinv_0_lt_compat. exact Hn. }
+    assert (step * IZR (rf_size r - 1) = rf_hi_i r - rf_lo_i r) as Est by (unfold step; field; lra).
+    assert (0 <= IZR i) as Hi0 by (apply IZR_le; lia).
+    assert (IZR i <= IZR (rf_size r - 1)) as Hi1 by (apply IZR_le; lia).
+    pose proof (Rmult_le_compat_r step _ _ Hst Hi1). pose proof (Rmult_le_pos _ _ Hi0 Hst).
+    split; [|exact Hst]. lra.
+  - split; [|lra]. lra.
+Qed.
+
+(* every listed value round-trips EXACTLY, for linear, log and reverse-log finite ranges
+   (finrange / logfinrange with float values) *)
+Lemma fr_roundtripR eps r i :
+  0 < eps < 1 / 2 -> real_scaling (rf_sc r) (rf_lo r) (rf_hi r) -> rf_lo r <= rf_hi r ->
+  (0 <= i < rf_size r)%Z ->
+  exists e, fr_to_ndR eps r (fr_map_from_intR r i) = Some e /\ 0 <= e <= 1 /\
+            fr_from_ndR eps r e = Some (fr_map_from_intR r i).
+Proof.
+  intros He Hs Hlh Hi.
+  destruct (real_scaling_good _ _ _ Hs) as [(Hinv & Hmono & Hdom) Hm].
+  destruct (rf_grid_in r i Hs Hlh Hi) as [Hg Hst].
+  destruct (rf_grid_in r 0 Hs Hlh ltac:(lia)) as [Hg0 _].
+  (* the grid point is inside [lo, hi] *)
+  assert (forall t, rf_lo_i r <= t <= rf_hi_i r -> rf_lo r <= from_intR (rf_sc r) t <= rf_hi r) as Hfrom.
+  { intros t [T1 T2]. pose proof (Hm _ _ T1) as Q1. pose proof (Hm _ _ T2) as Q2.
+    unfold rf_lo_i in Q1. unfold rf_hi_i in Q2.
+    rewrite (Hinv (rf_lo r) ltac:(lra)) in Q1. rewrite (Hinv (rf_hi r) ltac:(lra)) in Q2. lra. }
+  assert (sc_goodR (ri_sc (rf_rint r)) (rc_lo (ri_cont eps (rf_rint r))) (rc_hi (ri_cont eps (rf_rint r)))) as Hgi
+    by (apply linearR_good).
+  unfold fr_to_ndR, fr_from_ndR, fr_map_to_intR.
+  set (ti := IZR i * rf_step r + rf_lo_i r) in *.
+  assert (fr_map_from_intR r i = from_intR (rf_sc r) ti) as Ey.
+  { unfold fr_map_from_intR. fold ti. apply Rclip_id. apply Hfrom. exact Hg. }
+  rewrite Ey.
+  destruct (Req_EM_T (rf_step r) 0) as [E0|E0].
+  - destruct (int_roundtripR eps (rf_rint r) 0%Z He Hgi) as (e & E1 & E2 & E3); [simpl; lia|].
+    exists e. rewrite E1, E3. split; [reflexivity|]. split; [exact E2|]. simpl. f_equal.
+    unfold fr_map_from_intR. rewrite Rclip_id by (apply Hfrom; exact Hg0).
+    f_equal. unfold ti. rewrite E0. ring.
+  - assert (0 < rf_step r) as Hpos by lra.
+    rewrite (Rclip_id (from_intR (rf_sc r) ti) _ _ (Hfrom ti Hg)).
+    rewrite (Hdom _ (Hfrom ti Hg)), (real_scaling_inv2 _ _ _ Hs ti), (Rclip_id ti _ _ Hg).
+    replace ((ti - rf_lo_i r) / rf_step r) with (IZR i) by (unfold ti; field; lra).
+    rewrite round_heR_IZR.
+    destruct (int_roundtripR eps (rf_rint r) i He Hgi) as (e & E1 & E2 & E3); [simpl; lia|].
+    exists e. rewrite E1, E3. split; [reflexivity|]. split; [exact E2|]. simpl. f_equal. exact Ey.
+Qed.
